@@ -50,6 +50,9 @@ def run(ctx):
     # the CLI end to end (info yaml, file names, csv files) on a sample of the same generators
     cli_cases = [gen(ctx, kind) for stream, kind, n in streams(ctx) for _ in range(max(8, n // 25))]
     R.run_cli_cases(ctx, "cli-end-to-end", cli_cases, classify, only=["chromosome list"])
+    # history: the same maps remapped AFTER other maps of the same input on ONE IndexedAssembly object (in-process state must not matter)
+    hk = ['tagged', 'unlocs']
+    R.run_history_cases(ctx, "object-history", [R.make_case(ctx.rng, ctx.rng.choice(hk)) for _ in range(240 if ctx.thorough else 40)], PROJ, oracle, (classify if "classify" in globals() else None))
 
 
 def search(ctx, broken):
